@@ -3,6 +3,8 @@ C05 — Requests are served by priority, first-come-first-served among equals.
 -/
 import FsVerif.Proofs.PosExtra
 import FsVerif.Proofs.PrioReq
+import FsVerif.Proofs.FleetSorted
+import FsVerif.Proofs.SlotSorted
 namespace FsVerif.Props.C05
 open FsVerif PosStore
 
@@ -69,6 +71,27 @@ theorem prq_head_is_min {s : PrioReq} (h : PrioReq.Reachable s) :
    fun _ _ hq => PrioReq.trigGet_min (PrioReq.reachable_inv h) hq⟩
 
 example : ((PrioReq.run (PrioReq.init 1) [.get 1, .get 1, .get (-1), .put 0 ⟨5, 0⟩, .put 0 ⟨6, 0⟩, .settle]).getQ.map (·.id)) = [1] := by
+  decide
+
+/-! ### FleetStore and the slotted BeltStore (`reserve_put(priority)` / `reserve_get(priority)`): both request queues are in service
+order - by priority, first come first served among equals - in every reachable state: every API call with any priorities and every
+kernel event.  Only the head of a queue is ever granted (`trigPut` / `trigGet` pop the head), cancellation erases one request and
+keeps the order of the rest (the queues of the next state are sublists of the previous ones plus one stable insertion). -/
+
+theorem fleet_queues_sorted (cfg : FleetCfg) (ops : List FleetStore.Op) :
+    QSorted (FleetStore.run (FleetStore.init cfg) ops).b.putQ ∧ QSorted (FleetStore.run (FleetStore.init cfg) ops).b.getQ :=
+  let h := FleetStore.run_qs ops _ (FleetStore.init_qs cfg)
+  ⟨h.sp, h.sg⟩
+
+theorem slot_queues_sorted (cfg : SlotCfg) (ops : List SlotBelt.Op) :
+    QSorted (SlotBelt.run (SlotBelt.init cfg) ops).putQ ∧ QSorted (SlotBelt.run (SlotBelt.init cfg) ops).getQ :=
+  let h := SlotBelt.run_qs ops _ (SlotBelt.init_qs cfg)
+  ⟨h.sp, h.sg⟩
+
+/-- non-vacuity: three space requests with priorities 0, 2, −1 on a full fleet of capacity 1 queue up as −1, 2 (token 0 was granted) -/
+def demoFleetPrio : List FleetStore.Op := [.reservePutP 0 0, .reservePutP 1 2, .reservePutP 2 (-1)]
+
+example : ((FleetStore.run (FleetStore.init { cap := some 1, delay := 4, transit := 1 }) demoFleetPrio).b.putQ.map (fun t => (t.id, t.prio))) = [(2, -1), (1, 2)] := by
   decide
 
 end FsVerif.Props.C05
